@@ -41,9 +41,13 @@ from ioflo.base import building, excepting, doing, skedding, serving
 from ioflo.base import logging as iologging
 from ioflo.base.globaling import REO_Chunks
 
-RESERVED = list(building.Reserved)
-CONNECTIVES = list(building.Connectives)
-COMPARISONS = list(building.Comparisons)
+# The reserved words of FloScript, written out from the documentation (FloScript reference / the build*
+# docstrings) - deliberately NOT read from ioflo.base.building at run time: a damaged Connectives list in
+# ioflo must not silently shrink the set of places where the layout edits split a command.
+CONNECTIVES = ["to", "by", "with", "from", "per", "for", "cum", "qua", "via", "as", "at", "in", "of", "on", "re",
+               "is", "if", "be", "into", "and", "not", "+-"]
+COMPARISONS = ["==", "<", "<=", ">=", ">", "!="]
+RESERVED = CONNECTIVES + COMPARISONS
 VERBS = list(building.VerbList)
 
 PLAN_DIR = os.path.join(core.REPO, "ioflo", "app", "plan")
@@ -1222,3 +1226,72 @@ def gen_clone_graphs(n, kinds=("mine", "tag"), roots=("first", "all")):
                 lines.append("frame b")
                 label.append("%s: %s" % (mi, ", ".join(lab) if lab else "-"))
             yield " | ".join(label), "\n".join(lines) + "\n"
+
+
+# ----------------------------------------------------------------------------- C14 need spellings
+
+def gen_need_spellings():
+    """Every spelling of a need the makeDoneNeed / makeStatusNeed / makeMarkerNeed / makeFramerNeed / makeNeed
+    docstrings allow - every optional part present and absent - with valid and dangling names of the
+    C14 scaffold (framer f with frames a, b in a, c holding aux ax; aux ax, moot mt, slave sl, logger lg).
+    Yields (kind, need text) without duplicates."""
+    seen = set()
+
+    def emit(kind, parts):
+        text = " ".join(p for p in parts if p)
+        if text not in seen:
+            seen.add(text)
+            return [(kind, text)]
+        return []
+
+    # done: taskername is done | (aux A | any | all | A) [in frame [me|F]] [in framer [me|R]] is done
+    for subj in ("ax", "sl", "zz", "me", "aux ax", "aux zz", "any", "all"):
+        for fr in ("", "in frame", "in frame me", "in frame c", "in frame a", "in frame zz"):
+            for fm in ("", "in framer", "in framer me", "in framer f", "in framer ax", "in framer zz"):
+                yield from emit("done", [subj, fr, fm, "is done"])
+    # status: taskername is (readied, started, running, stopped, aborted)
+    for t in ("f", "sl", "lg", "ax", "me", "zz"):
+        for st in ("readied", "started", "running", "stopped", "aborted"):
+            yield from emit("status", [t, "is", st])
+    # marker: path [of relation] is (updated|changed) [in frame [me|F]] [by marker]  (clauses in both orders)
+    for path in (".p.q", "p.q", "p.q of me", "p.q of framer f", "p.q of frame a", "p.q of frame zz", ".n.o"):
+        for part in ("updated", "changed"):
+            for fr in ("", "in frame", "in frame me", "in frame b", "in frame zz"):
+                for by in ("", "by mk", 'by "m k"'):
+                    yield from emit("marker", [path, "is", part, fr, by])
+                    if fr and by:
+                        yield from emit("marker", [path, "is", part, by, fr])
+    # framer state: (elapsed|recurred) [re [me|name]] comparison goal [+- tolerance]
+    goals = ("2", "2.5", "goal", ".p.q", "x in .p.r", "p.q of me", '"str"', "true", "zz in .p.r", ".n.o")
+    for state in ("elapsed", "recurred"):
+        for re_ in ("", "re", "re me", "re f", "re ax", "re zz"):
+            for cmp_ in ("==", ">=", "<", "!="):
+                for goal in goals:
+                    for tol in ("", "+- 0.1", "+- zz"):
+                        if tol == "+- zz" and (cmp_ != "==" or goal not in ("2", "goal")):
+                            continue
+                        yield from emit("framer", [state, re_, cmp_, goal, tol])
+    # basic: [field in] path [comparison goal [+- tolerance]]
+    for state in (".p.q", "x in .p.r", "value in p.q of me", "zz in .p.r", ".n.o", "q of frame a", "x y in .p.r"):
+        yield from emit("basic", [state])
+        for cmp_ in ("==", ">=", "<", "!="):
+            for goal in ("3", '"s"', "true", ".o.a", "y in .p.r", "zz in .p.r", "p.q of framer f", ".n.o"):
+                for tol in ("", "+- 0.1"):
+                    yield from emit("basic", [state, cmp_, goal, tol])
+
+
+NEED_PARTNERS = (".p.q", "ax in frame c is done", ".p.q is updated in frame b")
+
+
+def gen_need_lines():
+    """The need spellings in every context: under go / let / aux-if, alone, negated, and as either side of a
+    2-clause conjunction with each of a few fixed partner needs (and negated there).  Yields (kind, line)."""
+    for kind, need in gen_need_spellings():
+        for head in ("go c if", "let me if", "aux ax if"):
+            yield kind, "%s %s" % (head, need)
+            yield kind, "%s not %s" % (head, need)
+        for partner in NEED_PARTNERS:
+            yield kind, "go c if %s and %s" % (need, partner)
+            yield kind, "go c if %s and %s" % (partner, need)
+        yield kind, "go c if not %s and not .p.q" % need
+        yield kind, "let me if .p.q and not %s" % need
